@@ -602,6 +602,23 @@ func derefType(v *Value) types.Type {
 
 func (env *SpecEnv) field(e *Expr) *Value {
 	x := env.x
+	// pkg.Name : a package-level function, constant or variable of another package
+	if e.Args[0].Op == "ident" {
+		if _, isVar := env.vars[e.Args[0].Name]; !isVar {
+			for _, sp := range x.prog.AllPackages() {
+				if sp.Pkg.Name() == e.Args[0].Name {
+					if o := sp.Pkg.Scope().Lookup(e.Name); o != nil {
+						sub := *env
+						sub.pkg = sp.Pkg
+						sub.fr = nil
+						sub.at = nil
+						sub.vars = map[string]*Value{}
+						return sub.ident(e.Name)
+					}
+				}
+			}
+		}
+	}
 	base := env.eval(e.Args[0])
 	t := base.T
 	if base.K == KPtr {
@@ -918,6 +935,26 @@ func (env *SpecEnv) call(e *Expr) *Value {
 		}
 		x.lawState = env.cur
 		return x.pureFuncCall(fvv, fvv.T, avs, resT)
+	}
+	if fvv, isVar := env.vars[name]; isVar && fvv.K == KFunc && fvv.Term != nil && fvv.T != nil && !x.pureFuncType(fvv.T) && x.rootFrame != nil && x.rootFrame.contract != nil && x.rootFrame.contract.PureCallbacks {
+		sig, isSig := under(fvv.T).(*types.Signature)
+		if isSig {
+			ts := []*Term{fvv.Term}
+			for _, a := range args {
+				ts = append(ts, leafTerms(env.eval(a))...)
+			}
+			var resT types.Type = sig.Results()
+			if sig.Results().Len() == 1 {
+				resT = sig.Results().At(0).Type()
+			}
+			i := 0
+			sigName := sanitize(shortType(fvv.T))
+			return buildValue(resT, func(l Leaf) *Term {
+				r := x.ctx.App(fmt.Sprintf("cb$%s$%d", sigName, i), l.Sort, ts...)
+				i++
+				return r
+			})
+		}
 	}
 	if sf, ok := x.db.Funs[name]; ok {
 		if len(sf.Params) != len(args) {
